@@ -2,6 +2,7 @@ package unmarshal
 
 import (
 	"bytes"
+	"encoding/json"
 	"fmt"
 	"github.com/go-faster/city"
 	"github.com/go-faster/jx"
@@ -246,7 +247,9 @@ var DecodePushRequestStringV2 = Build(
 func encodeLabels(lbls [][]string) string {
 	arrLbls := make([]string, len(lbls))
 	for i, l := range lbls {
-		arrLbls[i] = fmt.Sprintf("%s:%s", strconv.Quote(l[0]), strconv.Quote(l[1]))
+		k, _ := json.Marshal(l[0])
+		v, _ := json.Marshal(l[1])
+		arrLbls[i] = string(k) + ":" + string(v)
 	}
 	return fmt.Sprintf("{%s}", strings.Join(arrLbls, ","))
 }
